@@ -6,7 +6,7 @@ import HyperModel.Proofs.ChainIndex
 Histories: any list of `accept h` / `save h` (historical) / `restart w` over one accepted chain
 (`chain : Nat → Block`, one block per height, ids injective), heights and windows uint64, starting
 from `New` on an empty database with any window. `stepH` runs the code **with
-`/verif/fixes/C19-prune-target-missing.patch`** (`updateLastAccepted true`); the unpatched code
+`/verif/fixes/C19-prune-target-missing.patch`** (`updateLastAccepted true`, committed in /repo as 6de9247); the code before that commit
 (`updateLastAccepted false`) violates the first sentence of the property (`update_fails_unpatched`).
 
 * `update_never_fails`, `history_never_fails` — full strength (repaired code).
@@ -128,6 +128,10 @@ theorem run_link {chain : Nat → Block} (hc : Chain chain) (ops : List HOp) :
 theorem link_init (w : Nat) : Link (init w) (specInit w) :=
   ⟨rfl, rfl, by intro h hh; simp [specInit] at hh⟩
 
+/-- the `Chain` hypothesis is satisfiable: one block per height with pairwise different ids -/
+example : Chain (fun h => ({ id := List.replicate h 0, height := h, bytes := [] } : Block)) :=
+  ⟨fun _ => rfl, fun h h' e => by simpa using congrArg List.length e⟩
+
 /-! ## 1. recording an accepted block always succeeds -/
 
 /-- On any database state and for any block the repaired `UpdateLastAccepted` returns no error
@@ -145,7 +149,7 @@ theorem history_never_fails {chain : Nat → Block} (hc : Chain chain) (w0 : Nat
     ∀ r ∈ outsH chain (init w0) ops, r = Res.ok :=
   (run_link hc ops (inv_init chain w0) hw0 (link_init w0) hok).2.2
 
-/-- The code at the pinned commit: window 2, accept height 0, then height 100 (first accept
+/-- The code before /repo 6de9247: window 2, accept height 0, then height 100 (first accept
 after state sync) → `UpdateLastAccepted` returns `not found` and records nothing. -/
 theorem update_fails_unpatched :
     let b0 : Block := { id := [0], height := 0, bytes := [0] }
